@@ -19,6 +19,7 @@ firstitem = z3.Function('firstitem', Obj, Obj)   # next(iter(x.items()))
 eq = z3.Function('eq', Obj, Obj, B)              # truth of x == y  (not assumed reflexive: NaN)
 truthy = z3.Function('truthy', Obj, B)           # bool(x)
 typeof = z3.Function('typeof', Obj, Obj)         # type(x)
+exacttype = z3.Function('exacttype', Obj, Obj, B) # type(x) is C   (only ever used as an extra premise next to inst(x, C))
 attr = z3.Function('attr', Obj, Obj, Obj)        # getattr(x, name)   name = constant of the str
 hasattr_ = z3.Function('hasattr', Obj, Obj, B)
 callres = z3.Function('callres', Obj, Obj, Obj)  # result of calling user callable f on one argument (deterministic: assumption)
@@ -43,7 +44,8 @@ class Universe:
         for c in (object, type):
             self.const(c)
     def const(self, o):
-        k = id(o)
+        # immutable scalars are keyed by (type, value) - two equal str/int literals are the same constant; others by identity
+        k = ('v', type(o), o) if type(o) in (str, int, bool, float, bytes, type(None)) and o == o else id(o)
         if k not in self.consts:
             nm = getattr(o, '__qualname__', None) or type(o).__name__
             nm = ''.join(ch if ch.isalnum() else '_' for ch in str(nm))[:30]
@@ -83,7 +85,6 @@ class Universe:
                 try: ax.append(inst(za, zb) == z3.BoolVal(isinstance(a, b)))
                 except Exception: pass
         ax.append(z3.ForAll([y], inst(y, self.const(object))))
-        ax.append(z3.ForAll([y], inst(y, typeof(y))))
         # --- literal / sentinel values: real isinstance, real ==, real truthiness
         for zv, v in vs:
             for zb, b in cs:
